@@ -56,6 +56,9 @@ fn walk_expr(e: &Expr, labels: &mut Vec<String>) {
             if rhs.len() > 1 {
                 labels.push("list_operand".into());
             }
+            if rhs.len() > 8 {
+                labels.push("list_of_more_than_8".into());
+            }
             if op.level() == 1 {
                 if let Expr::Binary { op: o2, .. } = &**lhs {
                     if o2.level() == 1 {
@@ -80,6 +83,9 @@ fn walk_primary(p: &Primary, labels: &mut Vec<String>) {
         }
         Primary::Call(_, args) => {
             labels.push("call_expr".into());
+            if args.len() > 8 {
+                labels.push("more_than_8_arguments".into());
+            }
             for a in args {
                 walk_expr(a, labels)
             }
@@ -205,7 +211,7 @@ impl Prop for C02 {
         500
     }
     fn cases(&self, t: Tier) -> usize {
-        t.pick(60_000, 3_000_000)
+        t.pick(300_000, 3_000_000)
     }
     fn generate(&self, t: &mut Tape) -> Case {
         let sp1 = take_spelling(t, 60);
@@ -273,6 +279,7 @@ impl Prop for C02 {
         for s in [
             "comment", "multiline_comment", "noise", "case_changed", "crlf", "glued_suffix", "list_operand", "cmp_chain", "else_outer",
             "function_terminated_by_if_else", "empty_block", "multi_block", "subscript", "call_expr", "roll_expr", "poetic_expr_rhs",
+            "list_of_more_than_8", "more_than_8_arguments",
         ] {
             v.push(s.into());
         }
